@@ -517,7 +517,8 @@ func gen(rng *vh.Rng, n int, emit func(id string, sel int, in []int64, kind stri
 	mkp := func(id int64, node int64) opT {
 		return opT{Code: 1, Pod: cachectl.PodSpec{ID: id, Job: 2, Node: node, Phase: 1, Role: 1, CPU: 500, Mem: 1 << 20}}
 	}
-	for name, fs := range map[string][3]int64{"bind-batch-prebind-fails-first": {2, 1, 0}, "bind-batch-mixed": {0, 3, 1}, "bind-batch-all-bound": {1, 1, 1}} {
+	for bi, fs := range [][3]int64{{2, 1, 0}, {0, 3, 1}, {1, 1, 1}} {
+		name := []string{"bind-batch-prebind-fails-first", "bind-batch-mixed", "bind-batch-all-bound"}[bi]
 		bb := []opT{pb[0], pb[1], mkp(1, 0), mkp(2, 0), mkp(3, 0),
 			{Code: 19, Batch: []cachectl.BindCtx{{J: 2, T: 1, N: 1, F: fs[0]}, {J: 2, T: 2, N: 1, F: fs[1]}, {J: 2, T: 3, N: 1, F: fs[2]}}}}
 		for i, f := range fs {
